@@ -49,12 +49,13 @@ CLAIMED = {
                 note="Trusted: z3 BV, the quantisation table in vf/props/c15.py, memoryview->identity stub, CrossHair. DXT/ATI formats, the Cython codec and larger images are outside.",
                 technique="real codec code executed on z3 BitVec(32) terms with no-overflow side obligations (validity queries); CrossHair for access bounds and file structure"),
     "C20": dict(engine="chx", category="model_checking",
-                text="Hammer command sequences (fixed-width fields: every ASCII string at lengths 0,1,2,W-1,W with all characters symbolic; whole files), the "
-                     "scenes.image container v2/v3 and binary choreo scenes (all 19 event kinds, optional blocks, symbolic pool strings) are written and "
-                     "re-read under symbolic execution and compared field by field, second write byte-identical. Choreo text, soundscripts, VMT, PCF and SMD "
-                     "are NOT covered.",
-                note="Trusted: CrossHair, z3, pure-Python struct/BytesIO models (vf/stubs/binio.py, self-tested against the real ones each run). Floats concrete; "
-                     "LZMA/CRC on concrete data only.",
+                text="One round-trip family per format, all through the real writers and readers under symbolic execution: Hammer command sequences "
+                     "(fixed-width fields for every ASCII string at lengths 0,1,2,W-1,W; whole files), scenes.image v2/v3 (sorted by checksum, summaries, "
+                     "re-save identical), binary choreo scenes (19 event kinds), choreo text VCD, soundscripts, VMT materials, SMD meshes and PCF "
+                     "particles (symbolic strings over all code points at exact lengths 0..2, enum members/optional blocks by index, floats concrete). "
+                     "Two open known findings (soundscript stacks / VMT blocks written escaped into files read without escapes).",
+                note="Trusted: CrossHair, z3, struct/BytesIO models (vf/stubs/binio.py), ==-based AssocDict for Material._params, float/int shims. Flex-animation "
+                     "tracks in text VCD (reader not implemented), symbolic dict-key names, sample files under tests/ are outside.",
                 technique=_E1),
     "C13": dict(engine="chx", category="model_checking",
                 text="Two-session histories (add/overwrite/delete/new_file, modes w/a, per-session preload limits, archive indexes) on an in-memory file "
